@@ -143,6 +143,9 @@ var kC14 = register(&Kind[c14Case]{
 	Prop: "C14", Name: "encode",
 	Gen: func(t *rapid.T) c14Case {
 		d := genGCSData(t, pick(6000, 100000))
+		if d.M == 0 { // M = 0 (every item maps to 0) is exercised by C13 only
+			d.M = 1
+		}
 		if rapid.IntRange(0, 3).Draw(t, "carry") == 0 {
 			// exercise the carry path of the 64x64->128 multiply: both halves of N*M populated
 			d.P = uint8(rapid.IntRange(20, 32).Draw(t, "p2"))
@@ -357,6 +360,7 @@ func evalC14Chain(c c14Chain, o *Obs) error {
 	}
 	var entries [][]byte
 	seen := map[string]bool{}
+	scratch := make([]byte, 4096)
 	for i, e := range c.Entries {
 		if c.UseHash && i == 0 {
 			// the same 32 bytes arrive as a hash and as a plain entry (either order): one element
@@ -371,9 +375,20 @@ func evalC14Chain(c c14Chain, o *Obs) error {
 			}
 			e = h[:]
 		} else if i%2 == 0 {
-			b = b.AddEntry(e)
+			// entries travel through one scratch buffer that the caller reuses for the next entry
+			n := copy(scratch, e)
+			b = b.AddEntry(scratch[:n])
+			for k := range scratch[:n] {
+				scratch[k] ^= 0x3c
+			}
 		} else {
-			b = b.AddEntries([][]byte{e})
+			n := copy(scratch, e)
+			list := [][]byte{scratch[:n]}
+			b = b.AddEntries(list)
+			list[0] = nil
+			for k := range scratch[:n] {
+				scratch[k] ^= 0xc3
+			}
 		}
 		if !seen[string(e)] {
 			seen[string(e)] = true
@@ -400,6 +415,18 @@ func evalC14Chain(c c14Chain, o *Obs) error {
 		o.Class("C14:builder-unset-parameter")
 		if err == nil {
 			return fmt.Errorf("builder with P=%d M=%d built a filter", p, m)
+		}
+		// a premature Build is not fatal: once the parameters are set the builder builds
+		f2, err := b.SetP(19).SetM(784931).Build()
+		if err != nil {
+			return fmt.Errorf("builder: Build() before P/M were set failed (as it should), but after SetP(19).SetM(784931) Build() still fails: %v", err)
+		}
+		want := refGCSEncode(19, refGCSValues(key, 784931, entries))
+		if len(entries) == 0 {
+			want = nil
+		}
+		if got, _ := f2.Bytes(); f2.N() != uint32(len(entries)) || !bytes.Equal(got, want) {
+			return fmt.Errorf("builder: after a premature Build and SetP/SetM the filter has N=%d bytes %x, want N=%d bytes %x", f2.N(), clip(got), len(entries), clip(want))
 		}
 		return nil
 	}
